@@ -68,5 +68,243 @@ theorem bind_mixed_va (ps : List (Name × Option V)) (va : Name) (vs : List V) (
   unfold bind
   simp only [bindParams_mixed ps vs j hl hj, Option.isNone_some, Bool.false_and]
 
+/-! ### named arguments in any order -/
+
+/-- agreement of two `lookupRemove` results up to permutation of the rest -/
+def LR (a b : Option (V × List (Name × V))) : Prop :=
+  match a, b with
+  | none, none => True
+  | some (v1, r1), some (v2, r2) => v1 = v2 ∧ r1.Perm r2
+  | _, _ => False
+
+theorem LR_refl (a : Option (V × List (Name × V))) : LR a a := by
+  cases a with
+  | none => trivial
+  | some x => exact ⟨rfl, List.Perm.refl _⟩
+
+theorem LR_trans {a b c : Option (V × List (Name × V))} (h1 : LR a b) (h2 : LR b c) : LR a c := by
+  cases a with
+  | none =>
+    cases b with
+    | none => exact h2
+    | some y => exact h1.elim
+  | some x =>
+    obtain ⟨v1, r1⟩ := x
+    cases b with
+    | none => exact h1.elim
+    | some y =>
+      obtain ⟨v2, r2⟩ := y
+      cases c with
+      | none => exact h2.elim
+      | some z =>
+        obtain ⟨v3, r3⟩ := z
+        exact ⟨h1.1.trans h2.1, h1.2.trans h2.2⟩
+
+theorem lookupRemove_none_iff (p : Name) : ∀ (l : List (Name × V)),
+    lookupRemove p l = none ↔ p ∉ l.map (·.1)
+  | [] => by simp [lookupRemove]
+  | (k, v) :: r => by
+    simp only [lookupRemove, List.map_cons, List.mem_cons, not_or]
+    by_cases hk : k = p
+    · simp [hk]
+    · have ih := lookupRemove_none_iff p r
+      simp only [hk, if_false]
+      cases h : lookupRemove p r with
+      | none => simp [Ne.symm hk, ih.mp h]
+      | some x =>
+        simp only [reduceCtorEq, false_iff, not_and, Decidable.not_not]
+        intro _
+        have : ¬ (lookupRemove p r = none) := by rw [h]; simp
+        exact Decidable.not_not.mp (fun hn => this (ih.mpr hn))
+
+theorem lookupRemove_perm (p : Name) {l1 l2 : List (Name × V)} (h : l1.Perm l2)
+    (hn : (l1.map (·.1)).Nodup) : LR (lookupRemove p l1) (lookupRemove p l2) := by
+  induction h with
+  | nil => exact LR_refl _
+  | cons x hperm ih =>
+    obtain ⟨k, v⟩ := x
+    rw [List.map_cons, List.nodup_cons] at hn
+    simp only [lookupRemove]
+    by_cases hk : k = p
+    · simp only [hk, if_true]; exact ⟨rfl, hperm⟩
+    · simp only [hk, if_false]
+      have hih := ih hn.2
+      revert hih
+      generalize lookupRemove p _ = a
+      generalize lookupRemove p _ = b
+      intro hih
+      cases a with
+      | none =>
+        cases b with
+        | none => trivial
+        | some y => exact hih.elim
+      | some x =>
+        obtain ⟨v1, r1⟩ := x
+        cases b with
+        | none => exact hih.elim
+        | some y =>
+          obtain ⟨v2, r2⟩ := y
+          exact ⟨hih.1, List.Perm.cons _ hih.2⟩
+  | swap x y l =>
+    obtain ⟨k1, v1⟩ := x
+    obtain ⟨k2, v2⟩ := y
+    rw [List.map_cons, List.map_cons, List.nodup_cons] at hn
+    have hne : k2 ≠ k1 := fun h => hn.1 (by simp [h])
+    simp only [lookupRemove]
+    by_cases h1 : k1 = p <;> by_cases h2 : k2 = p
+    · exact absurd (h2.trans h1.symm) hne
+    · simp only [h1, h2, if_true, if_false]; exact ⟨rfl, List.Perm.refl _⟩
+    · simp only [h1, h2, if_true, if_false]; exact ⟨rfl, List.Perm.refl _⟩
+    · simp only [h1, h2, if_false]
+      cases lookupRemove p l with
+      | none => trivial
+      | some r => exact ⟨rfl, List.Perm.swap _ _ _⟩
+  | trans h1 h2 ih1 ih2 =>
+    have hn2 := (List.Perm.nodup_iff (h1.map (·.1))).mp hn
+    exact LR_trans (ih1 hn) (ih2 hn2)
+
+theorem lookupRemove_sublist (p : Name) : ∀ (l : List (Name × V)) (v : V) (r : List (Name × V)),
+    lookupRemove p l = some (v, r) → r.Sublist l
+  | [], _, _, h => by simp [lookupRemove] at h
+  | (k, w) :: l, v, r, h => by
+    simp only [lookupRemove] at h
+    by_cases hk : k = p
+    · simp only [hk, if_true, Option.some.injEq, Prod.mk.injEq] at h
+      rw [← h.2]; exact List.sublist_cons_self _ _
+    · simp only [hk, if_false] at h
+      cases hl : lookupRemove p l with
+      | none => rw [hl] at h; cases h
+      | some x =>
+        obtain ⟨x1, r'⟩ := x
+        rw [hl] at h
+        simp only [Option.some.injEq, Prod.mk.injEq] at h
+        rw [← h.2]
+        exact (lookupRemove_sublist p l x1 r' hl).cons_cons _
+
+theorem lookupRemove_nodup (p : Name) (l : List (Name × V)) (v : V) (r : List (Name × V))
+    (h : lookupRemove p l = some (v, r)) (hn : (l.map (·.1)).Nodup) : (r.map (·.1)).Nodup :=
+  List.Nodup.sublist ((lookupRemove_sublist p l v r h).map _) hn
+
+/-- agreement of two `bindParams` results up to permutation of the left-over named values -/
+def BR (a b : Except ArgsErr (List (Name × Bound V) × List V × List (Name × V))) : Prop :=
+  match a, b with
+  | .ok (b1, p1, n1), .ok (b2, p2, n2) => b1 = b2 ∧ p1 = p2 ∧ n1.Perm n2
+  | .error e1, .error e2 => e1 = e2
+  | _, _ => False
+
+theorem bindParams_perm : ∀ (ps : List (Name × Option V)) (pos : List V) (n1 n2 : List (Name × V)),
+    n1.Perm n2 → (n1.map (·.1)).Nodup → BR (bindParams ps pos n1) (bindParams ps pos n2)
+  | [], pos, n1, n2, h, _ => by simp only [bindParams]; exact ⟨rfl, rfl, h⟩
+  | (p, d) :: ps, v :: pos, n1, n2, h, hn => by
+    have ih := bindParams_perm ps pos n1 n2 h hn
+    simp only [bindParams]
+    · skip
+      revert ih
+      generalize bindParams ps _ _ = a
+      generalize bindParams ps _ _ = b
+      intro ih
+      cases a with
+      | error e1 =>
+        cases b with
+        | error e2 => exact ih
+        | ok y => exact ih.elim
+      | ok x1 =>
+        obtain ⟨b1, p1, m1⟩ := x1
+        cases b with
+        | error e2 => exact ih.elim
+        | ok y =>
+          obtain ⟨b2, p2, m2⟩ := y
+          exact ⟨by rw [ih.1], ih.2.1, ih.2.2⟩
+  | (p, d) :: ps, [], n1, n2, h, hn => by
+    have hlr := lookupRemove_perm p h hn
+    cases h1 : lookupRemove p n1 with
+    | none =>
+      cases h2 : lookupRemove p n2 with
+      | some y => rw [h1, h2] at hlr; exact hlr.elim
+      | none =>
+        cases d with
+        | none => simp only [bindParams, h1, h2]; rfl
+        | some dv =>
+          have ih := bindParams_perm ps [] n1 n2 h hn
+          simp only [bindParams, h1, h2]
+          revert ih
+          generalize bindParams ps _ _ = a
+          generalize bindParams ps _ _ = b
+          intro ih
+          cases a with
+          | error e1 =>
+            cases b with
+            | error e2 => exact ih
+            | ok y => exact ih.elim
+          | ok x1 =>
+            obtain ⟨b1, p1, m1⟩ := x1
+            cases b with
+            | error e2 => exact ih.elim
+            | ok y =>
+              obtain ⟨b2, p2, m2⟩ := y
+              exact ⟨by rw [ih.1], ih.2.1, ih.2.2⟩
+    | some x =>
+      obtain ⟨v1, r1⟩ := x
+      cases h2 : lookupRemove p n2 with
+      | none => rw [h1, h2] at hlr; exact hlr.elim
+      | some y =>
+        obtain ⟨v2, r2⟩ := y
+        rw [h1, h2] at hlr
+        obtain ⟨hv, hr⟩ := hlr
+        subst hv
+        have ih := bindParams_perm ps [] r1 r2 hr (lookupRemove_nodup p n1 v1 r1 h1 hn)
+        simp only [bindParams, h1, h2]
+        revert ih
+        generalize bindParams ps _ _ = a
+        generalize bindParams ps _ _ = b
+        intro ih
+        cases a with
+        | error e1 =>
+          cases b with
+          | error e2 => exact ih
+          | ok y => exact ih.elim
+        | ok x1 =>
+          obtain ⟨b1, p1, m1⟩ := x1
+          cases b with
+          | error e2 => exact ih.elim
+          | ok y =>
+            obtain ⟨b2, p2, m2⟩ := y
+            exact ⟨by rw [ih.1], ih.2.1, ih.2.2⟩
+
+/-- `bind` without rest parameter: the order in which named arguments are written does not
+matter — same bindings on success, failure on both sides otherwise (the `unexpected`
+error names the first left-over key, which does depend on the order). -/
+theorem bind_named_perm (ps : List (Name × Option V)) (pos : List V) (n1 n2 : List (Name × V))
+    (h : n1.Perm n2) (hn : (n1.map (·.1)).Nodup) :
+    (bind ⟨ps, none⟩ ⟨pos, n1⟩).toOption = (bind ⟨ps, none⟩ ⟨pos, n2⟩).toOption := by
+  have hb := bindParams_perm ps pos n1 n2 h hn
+  unfold bind
+  simp only [h.length_eq]
+  split
+  · rfl
+  · revert hb
+    generalize bindParams ps pos n1 = a
+    generalize bindParams ps pos n2 = b
+    intro hb
+    cases a with
+    | error e1 =>
+      cases b with
+      | error e2 => rfl
+      | ok y => exact hb.elim
+    | ok x =>
+      obtain ⟨b1, p1, r1⟩ := x
+      cases b with
+      | error e2 => exact hb.elim
+      | ok y =>
+        obtain ⟨b2, p2, r2⟩ := y
+        obtain ⟨hb1, _, hr⟩ := hb
+        subst hb1
+        cases r1 with
+        | nil => rw [List.Perm.nil_eq hr]
+        | cons k1 t1 =>
+          cases r2 with
+          | nil => exact absurd hr.symm.nil_eq (by simp)
+          | cons k2 t2 => rfl
+
 end
 end Glue.FnReg
